@@ -78,8 +78,25 @@ def byte_fault(rng, raw, delim):
     return raw[:i] + delim + raw[i:], 'insert_delim'
 
 
-def run_parser(F, raw, delim, sup, pre='', post='', pass_delim=True):
-    buf = io.BytesIO((pre + raw + post).encode(fcs_ref.ENC))
+class ShortReadBuf(io.BytesIO):
+    """A raw stream: read(n) may legally return fewer than n bytes before EOF (pipes, network and FUSE file
+    systems, unbuffered files). Every read is capped at `cap` bytes."""
+
+    def __init__(self, data, cap):
+        io.BytesIO.__init__(self, data)
+        self.cap = cap
+        self.short = 0
+
+    def read(self, n=-1):
+        if n is None or n < 0 or n > self.cap:
+            n = self.cap
+            self.short += 1
+        return io.BytesIO.read(self, n)
+
+
+def run_parser(F, raw, delim, sup, pre='', post='', pass_delim=True, cap=None):
+    data = (pre + raw + post).encode(fcs_ref.ENC)
+    buf = io.BytesIO(data) if cap is None else ShortReadBuf(data, cap)
     begin = len(pre)
     end = begin + len(raw) - 1
     with warnings.catch_warnings(record=True) as w:
@@ -184,7 +201,13 @@ class C14Machine(Machine):
                 d = rng.choice(PRINTABLE) if rng.chance(0.6) else rng.choice(fcsgen.DELIMS)
                 spec['delim'] = d
                 spec['extra'] = rich_pairs(rng, d, 0, 4)
-                if spec['version'] != 'FCS2.0' and rng.chance(0.6):
+                if spec['version'] != 'FCS2.0' and rng.chance(0.12):
+                    # a reserved, blank supplemental region (padding only, no delimiter in it)
+                    spec['stext_blank'] = [rng.choice([' ', '\x00']), rng.randint(1, 40)]
+                    if spec['stext_blank'][0] == d:
+                        spec['stext_blank'][0] = '\x00' if d != '\x00' else ' '
+                    spec['order'].insert(rng.randint(0, len(spec['order'])), 'STEXT')
+                elif spec['version'] != 'FCS2.0' and rng.chance(0.6):
                     spec['stext'] = rich_pairs(rng, d, 1, 3)
                     spec['stext_lead'] = rng.chance(0.6)
                     spec['order'].insert(rng.randint(0, len(spec['order'])), 'STEXT')
@@ -217,7 +240,10 @@ class C14Machine(Machine):
             if rng.chance(0.2):
                 raw += rng.choice(['junk', ' ', '\x00\x00', 'ab'])       # chars after the last delimiter
                 faults.append('trailing_chars')
-            items.append({'raw': raw, 'delim': d, 'sup': sup, 'faults': faults,
+            cap = None
+            if rng.chance(0.15):
+                cap = rng.choice([1, 3, 8, 16, 64])          # short reads from a raw stream
+            items.append({'raw': raw, 'delim': d, 'sup': sup, 'faults': faults, 'cap': cap,
                           'pre': 'HDR' * rng.randint(0, 3), 'post': rng.choice(['', d, 'zz' + d, d + d]),
                           'pass_delim': rng.chance(0.5)})
         return {'arm': 'direct', 'items': items}
@@ -241,13 +267,19 @@ class C14Machine(Machine):
         def bump(d, k, n=1):
             d[k] = d.get(k, 0) + n
 
-        def one(raw, delim, sup, pre='', post='', pass_delim=True, faults=()):
+        def one(raw, delim, sup, pre='', post='', pass_delim=True, faults=(), cap=None):
             if not sup and not pass_delim and raw:
                 delim = raw[0]          # a primary segment read without a given delimiter defines its own
             ref = fcs_ref.tokenize(raw, delim, sup)
-            got = run_parser(F, raw, delim, sup, pre, post, pass_delim)
+            got = run_parser(F, raw, delim, sup, pre, post, pass_delim, cap)
             out['evals'] += 1
             j = judge(ref, got)
+            if cap is not None and len(raw) > cap:
+                # fault arm (short read actually happened): the reader may refuse, but must never return other pairs
+                bump(out['faults'], 'short_read')
+                if got[0] == 'err':
+                    j = None
+                    bump(out['probes'], 'short_read_refused')
             bump(out['probes'], 'ref_' + ref[0])
             if ref[0] == 'tol' and got[0] == 'warned':
                 bump(out['probes'], 'tolerated_ending_read_with_warning')
@@ -279,7 +311,7 @@ class C14Machine(Machine):
         elif case['arm'] == 'direct':
             for it in case['items']:
                 r, g = one(it['raw'], it['delim'], it['sup'], it.get('pre', ''), it.get('post', ''),
-                           it.get('pass_delim', True), it.get('faults', ()))
+                           it.get('pass_delim', True), it.get('faults', ()), it.get('cap'))
                 log.add('direct', it['raw'], it['delim'], it['sup'], r, g)
         elif case['arm'] == 'siblings':
             dk = simdisk.SimDisk('c14s')
